@@ -92,6 +92,8 @@ def parseStep (s : String) (K : Nat) : Option SStep :=
   | ["C"] => some .unloadCur
   | ["N", "G"] => some (.newReq true)
   | ["N", "P"] => some (.newReq false)
+  | ["O", r, "sb"] => (num r).map .streamBegin
+  | ["O", r, "se"] => (num r).map .streamEnd
   | ["O", r, what] => if outcomeNames.contains what then (num r).map (.answer · what) else none
   | ["A", r] => (num r).map .abort
   | ["D", k] => match num k with
